@@ -55,6 +55,8 @@ def check(chk, fx):
     stdexrules.bitset(chk, fx)       # character classes / item and FIRST sets live in cbitset
     lexrules.tag(chk, fx)
     lexrules.lenw(chk, fx)
+    from .. import width
+    width.check(chk, fx, classes=("LEN",), minimum=8)     # every carrier of a lexeme length
     tix.report(chk, fx)
     idxrule.report(chk, fx, lambda q: q.startswith(R) or q.startswith(P + "get_current_term") or
                    q.startswith(P + "create_lexer") or q.startswith(P + "shift") or q.startswith(P + "skip_whitespace"),
